@@ -113,6 +113,8 @@ def coq_cases(hs):
                 if o["out"] == "ret":
                     r = o["ret"]
                     code = 10 + r // 1000 if r >= 0 else 4 + (-r) // 1000
+                    if code > 4000:
+                        code = 3    # a garbage answer: never write a large nat numeral into a generated case (unary: coqc ran out of memory on one)
                 else:
                     code = {"notimpl": 1, "nilpanic": 2}.get(o["out"], 3)
             elif o["op"] == "reset":
